@@ -252,6 +252,9 @@ func (s *vfSim) runMonitors(mc vfMonCfg) *vfMonOut {
 			for _, m := range p.Malformed {
 				res.violate("C12", "emit/malformed/"+vfKindOfFinding(p), "side %d wrote a malformed packet (%s): %s", side, vfPktSummary(p), m)
 			}
+			for _, m := range p.Semantic {
+				res.violate("C12", "emit/invalid-field/"+vfKindOfFinding(p), "side %d wrote a packet (%s) with a field value no correct sender produces: %s", side, vfPktSummary(p), m)
+			}
 			if !mc.skipStability && len(p.Malformed) == 0 {
 				vfCheckStability(res, e.Raw, p, side)
 			}
